@@ -212,10 +212,27 @@ pub fn gen_c06(out: &mut Out, rng: &mut Rng, thorough: bool) {
                         1 => (0, slave.wrapping_add(1 + rng.u8() % 254)),
                         _ => (0, slave),
                     };
+                    // every so often another complete frame right behind the reply (same read or the
+                    // next): under the request's header or a foreign one, same kind / another / exception
+                    let trailing = if rng.chance(1, 6) {
+                        let tp = match rng.below(3) {
+                            0 => pdu.clone(),
+                            1 => vec![rsp_code | 0x80, rng.u8()],
+                            _ => {
+                                let c = *rng.pick(RTU_RSP_CODES);
+                                response_pdu_with_code(rng, c, kind == "rtu")
+                            }
+                        };
+                        let (tt, tu) = if rng.bool() { (0, slave) } else { (rng.u16(), rng.u8()) };
+                        let f = frame(kind, tt, tu, &tp);
+                        if rng.bool() { hex_raw(&f) } else { format!(",d{}", hex_raw(&f)) }
+                    } else {
+                        String::new()
+                    };
                     monitor_line(
                         out,
                         &format!(
-                            "cli {kind} {} | call {} r=d{}",
+                            "cli {kind} {} | call {} r=d{}{trailing}",
                             hex8(slave),
                             request(&req),
                             hex_raw(&frame(kind, tid, unit, &pdu))
@@ -333,15 +350,20 @@ pub fn mon_c06(out: &mut Out, l: &str, r: &str) {
         if pe.has_fault {
             continue;
         }
-        // the reply must be exactly one well-formed frame
+        // the reply is the first well-formed frame; whole frames behind it are surplus that must
+        // not change the verdict on the reply
         let (rh, pdu) = if kind == "tcp" {
-            match spec::split_mbap(&pe.data).as_slice() {
-                [MbapItem::Frame(t, u, p)] => ((*t, *u), p.clone()),
+            let items = spec::split_mbap(&pe.data);
+            if !items.iter().all(|x| matches!(x, MbapItem::Frame(..))) {
+                continue;
+            }
+            match items.first() {
+                Some(MbapItem::Frame(t, u, p)) => ((*t, *u), p.clone()),
                 _ => continue,
             }
         } else {
             match split_rtu_clean(&pe.data, false) {
-                Some(v) if v.len() == 1 => ((0, v[0].0), v[0].1.clone()),
+                Some(v) if !v.is_empty() => ((0, v[0].0), v[0].1.clone()),
                 _ => continue,
             }
         };
@@ -719,7 +741,8 @@ pub fn gen_c13(out: &mut Out, rng: &mut Rng, thorough: bool) {
         let rq = request(&req);
         // reply cut at every offset by end of stream / read errors, under three ambient errno states
         for j in 0..=reply.len() {
-            for (fi, fault) in ["e", "xk1", "xk2", "xot"].iter().enumerate() {
+            // (`E`: the peer has closed for good – every further read reports the end of the stream)
+            for (fi, fault) in ["e", "xk1", "xk2", "xot", "E"].iter().enumerate() {
                 // every ambient errno state at the frame boundary, a rotating one inside the frame
                 let errnos: Vec<i32> = if j == 0 || j == reply.len() {
                     vec![0, 2, 13, 20, 104]
@@ -798,8 +821,63 @@ pub fn gen_c13(out: &mut Out, rng: &mut Rng, thorough: bool) {
     }
 }
 
+/// the write side over two calls: the first send stops part-way (a write error at any offset, or
+/// the transport stops taking bytes and the caller gives up), then the transport takes
+/// everything again in small pieces: what reaches it is still frame 1 then frame 2, every byte
+/// once and in order
+pub fn gen_c13_second_send(out: &mut Out, rng: &mut Rng, thorough: bool) {
+    for i in 0..(if thorough { 6000 } else { 400 }) {
+        let kind = if i % 2 == 0 { "tcp" } else { "rtu" };
+        let unit = rng.u8();
+        let req1 = loop {
+            let hint = rng.below(5);
+            let r = gen_request(rng, Some(hint));
+            if !(kind == "rtu" && matches!(r, Request::Custom(..))) && spec::request_bytes(&r).is_some_and(|b| b.len() <= 60) {
+                break r;
+            }
+        };
+        let f1 = frame(kind, 0, unit, &spec::request_bytes(&req1).unwrap());
+        let k = rng.below(f1.len());
+        let pre = if k == 0 { String::new() } else if rng.bool() { format!("a{k},") } else { format!("a{},p,a{},", k.div_ceil(2), k - k.div_ceil(2)).replace("a0,", "") };
+        let first = match rng.below(3) {
+            0 => format!("w={pre}{}", *rng.pick(&["xk1", "xbp", "xto", "xii", "xid", "xot"])),
+            1 => format!("b={} w={pre}p,p,p,p", 1 + pre.matches('p').count()),
+            _ => format!("w={pre}z"),
+        };
+        let second_w = *rng.pick(&["a1,a2,a3,a300", "a300", "p,a4,p,a300", "a2,p,a300"]);
+        monitor_line(out, &format!("cli {kind} {} | call {} {first} | call RHR:0102:0001 w={second_w} r=e", hex8(unit), request(&req1)));
+    }
+}
+
+fn mon_c13_second_send(out: &mut Out, l: &str, r: &str) {
+    let (head, ops) = ops_of(l);
+    let kind = head[1];
+    let res = parts(r);
+    let mut wire: Vec<u8> = vec![];
+    let mut expect: Vec<u8> = vec![];
+    for (i, o) in ops.iter().enumerate() {
+        let Some(req) = op_request(o) else { return };
+        let Some(reqb) = spec::request_bytes(&req) else { return };
+        let (tid, unit) = expected_hdr(&head, &ops, i);
+        expect.extend(frame(kind, tid, unit, &reqb));
+        wire.extend(written(res.get(i).copied().unwrap_or("")));
+    }
+    let got2 = outcome_of(res.get(1).copied().unwrap_or(""));
+    out.check(!r.contains("panic"), || "call panicked".into(), l);
+    // the second call's send went through (it then met the end of the stream)
+    if got2 == "tr:bp" {
+        out.check(wire == expect, || format!("bytes that reached the transport over both calls are not frame 1 then frame 2: {} (expected {})", hex(&wire), hex(&expect)), l);
+    } else {
+        out.check(expect.starts_with(&wire), || format!("bytes that reached the transport are not a prefix of frame 1 then frame 2: {}", hex(&wire)), l);
+    }
+}
+
 pub fn mon_c13(out: &mut Out, l: &str, r: &str) {
     let (head, ops) = ops_of(l);
+    if head[0] == "cli" && ops.len() == 2 && ops.iter().all(|o| o.name == "call") && l.ends_with(" r=e") && l.contains("| call RHR:0102:0001 w=") {
+        mon_c13_second_send(out, l, r);
+        return;
+    }
     if head[0] != "cli" || ops.len() != 1 || ops[0].name != "call" {
         return;
     }
@@ -1296,7 +1374,12 @@ pub fn illformed_typed_replies(out: &mut Out, rng: &mut Rng, head: &str, kind: &
         for (op, rsp) in cases {
             let good = spec::response_bytes(&rsp).unwrap();
             let mut pdu = good.clone();
-            match rng.below(5) {
+            match rng.below(7) {
+                // one field damaged, length kept (an echo with a foreign value field, a wrong count …)
+                5 | 6 => {
+                    let i = rng.range(1, pdu.len() - 1);
+                    pdu[i] = if rng.bool() { pdu[i] ^ (1 << rng.below(8)) } else { rng.u8() };
+                }
                 0 => pdu.extend(rng.bytes_in(1, 4)),
                 1 => {
                     // beyond the PDU limit, byte count consistent with the length
@@ -1337,7 +1420,13 @@ pub fn mon_c20(out: &mut Out, l: &str, r: &str) {
             _ => return,
         }
     };
-    let Verdict::Accept(rsp) = (if pdu[0] < 0x80 { spec::classify_response(&pdu) } else { Verdict::Unspecified }) else { return };
+    let verdict = if pdu[0] < 0x80 { spec::classify_response(&pdu) } else { Verdict::Unspecified };
+    if verdict == Verdict::Reject {
+        // not a reply of any kind (C08): no typed method may report success for it
+        out.check(!got.starts_with("ok "), || format!("typed method reports success `{got}` for a malformed reply PDU {}", super::codec::trunc(&hex(&pdu))), l);
+        return;
+    }
+    let Verdict::Accept(rsp) = verdict else { return };
     if let Some(v) = got.strip_prefix("ok ") {
         match (&op, &rsp) {
             (TypedOp::Rc(_, cnt), Response::ReadCoils(bs)) | (TypedOp::Rdi(_, cnt), Response::ReadDiscreteInputs(bs)) => {
@@ -1518,7 +1607,19 @@ pub fn gen_c02(out: &mut Out, rng: &mut Rng, thorough: bool) {
             };
             format!("R={}", response(&rsp))
         };
-        monitor_line(out, &format!("srv {kind} svc={svc} r=d{}", hex_raw(&reqf)));
+        // what is behind the request must not keep its reply back: nothing, the head of a next
+        // request, a whole next request that the service declines, the end of the stream
+        let next = frame(kind, 1, unit, &[0x03, 0x00, 0x07, 0x00, 0x01]);
+        let (svc_tail, behind) = match rng.below(8) {
+            0 => ("", hex_raw(&next[..rng.range(1, next.len() - 1)])),
+            1 => (",D", hex_raw(&next)),
+            2 => (",D", format!("{},e", hex_raw(&next))),
+            3 => (",D", format!(",d{}", hex_raw(&next))),
+            4 => ("", ",e".to_string()),
+            5 => ("", ",E".to_string()),
+            _ => ("", String::new()),
+        };
+        monitor_line(out, &format!("srv {kind} svc={svc}{svc_tail} r=d{}{behind}", hex_raw(&reqf)));
     }
     // every variable-size response at and just below the PDU limit (253 bytes), both framings
     for kind in ["tcp", "rtu"] {
@@ -1574,19 +1675,24 @@ pub fn mon_c02(out: &mut Out, l: &str, r: &str) {
     let kind = t[1];
     let fields = &t[2..];
     let svc = field("svc", fields);
-    if svc.contains(',') || svc.is_empty() {
+    if svc.is_empty() {
+        return;
+    }
+    // only the first request is answered (whatever follows is declined)
+    let (svc, others) = svc.split_once(',').unwrap_or((svc, ""));
+    if !others.split(',').all(|s| s.is_empty() || s == "D") {
         return;
     }
     let pe = parse_events(field("r", fields));
-    // one request frame with transaction id 0
+    // a request frame with transaction id 0 at the head of the stream
     let (unit, reqpdu) = if kind == "tcp" {
-        match spec::split_mbap(&pe.data).as_slice() {
-            [MbapItem::Frame(0, u, p)] => (*u, p.clone()),
+        match spec::split_mbap(&pe.data).first() {
+            Some(MbapItem::Frame(0, u, p)) => (*u, p.clone()),
             _ => return,
         }
     } else {
-        match split_rtu_clean(&pe.data, true) {
-            Some(v) if v.len() == 1 => (v[0].0, v[0].1.clone()),
+        match (4..=pe.data.len().min(260)).find_map(|n| split_rtu_clean(&pe.data[..n], true).filter(|v| v.len() == 1)) {
+            Some(v) => (v[0].0, v[0].1.clone()),
             _ => return,
         }
     };
